@@ -175,9 +175,46 @@ def run(ctx):
                         ok = bool(dels) and txt(dels[0].val.slice) == '%s[2]' % tok[0] and txt(p.outcome[1]) == '%s[2]' % tok[0]
                         ctx.ob('T2.pop', '%s.pop' % cls, 'pop deletes the popped task (3rd slot) from the entry map and returns it', ok,
                                loc=f.loc, path=p.describe() if not ok else None)
-        # _cull pops only tombstones
+        # answers of peek/pop: a live queue answers with the task slot of the head entry; an empty one with the caller's
+        # default when one was given (the sentinel test), else with IndexError
+        for name in ('peek', 'pop'):
+            f = prog.resolve(ci, name)
+            dparam = f.params[1] if len(f.params) > 1 else 'default'
+            w, paths = paths_of(prog, f, recv=ci, model=M(prog))
+            for p in paths:
+                caught = [o for o in p.ops if o.kind == 'except' and o.info == 'IndexError' and o.depth == 0]
+                given = [truth for t, truth, o in tests_on(w, p) if cmp_text_safe(t) in ('%s is not _REMOVED' % dparam,)]
+                given += [not truth for t, truth, o in tests_on(w, p) if cmp_text_safe(t) in ('%s is _REMOVED' % dparam,)]
+                if caught:
+                    if p.kind == 'return':
+                        ok = bool(given) and given[-1] is True and txt(p.outcome[1]) == dparam
+                        ctx.ob('T14.default', '%s.%s' % (cls, name), 'an empty queue is answered with the caller\'s default exactly when one '
+                               'was given', ok, loc=f.loc, path=p.describe() if not ok else None)
+                    elif p.kind == 'raise' and p.outcome[1] == 'IndexError':
+                        ok = bool(given) and given[-1] is False
+                        ctx.ob('T14.default', '%s.%s' % (cls, name), 'without a default an empty queue raises IndexError', ok, loc=f.loc,
+                               path=p.describe() if not ok else None)
+                elif p.kind == 'return' and name == 'peek':
+                    heads = [o for o in p.ops if o.depth == 0 and o.kind == 'sub_load' and txt(w.expand(o.val)) == 'self._pq[0]']
+                    ok = bool(heads) and txt(w.expand(p.outcome[1])) in ('self._pq[0][2]', 'self._pq[0][-1]')
+                    ctx.ob('T2.peek', '%s.peek' % cls, 'peek returns the task slot of the head entry', ok, loc=f.loc,
+                           detail='returns %s' % txt(w.expand(p.outcome[1])), path=p.describe() if not ok else None)
+        # _cull leaves a live head: every normal return either found the list empty or just saw a head that is not a tombstone
         cu = prog.resolve(ci, '_cull')
         w, paths = paths_of(prog, cu, recv=ci, model=Quiet(prog))
+        n_post = 0
+        for p in paths:
+            if p.kind != 'return':
+                continue
+            pops_ = [o for o in p.ops if o.kind == 'call' and txt(o.val.func) == 'self._pop_entry']
+            last_pop = pops_[-1].seq if pops_ else -1
+            ts = [(t, truth) for t, truth, x in tests_on(w, p) if x.seq > last_pop]
+            live = any((t.endswith('[2] is _REMOVED') and not truth) or (t.endswith('[2] is not _REMOVED') and truth) for t, truth in ts)
+            empty = any(t in ('self._pq',) and not truth for t, truth in ts)
+            n_post += 1
+            ctx.ob('T9.cullpost', '%s._cull' % cls, '_cull returns only after seeing a live head (or an empty list) since its last pop',
+                   live or empty, loc=cu.loc, path=p.describe() if not (live or empty) else None)
+        # _cull pops only tombstones
         for p in paths:
             for o in p.ops:
                 if o.kind == 'call' and txt(o.val.func) == 'self._pop_entry':
@@ -255,6 +292,10 @@ def run(ctx):
     for r, n in (('T1.hook', 6), ('T9.add', 2), ('T9.readd', 2), ('T2.remove', 2), ('T9.cull', 4), ('T2.pop', 2), ('T9.cullonly', 2),
                  ('T12.layout', 3), ('T11.counter', 1)):
         ctx.need(r, n)
+
+
+def cmp_text_safe(t):
+    return ' '.join(t.split())
 
 
 def barrel_positions(ctx, prog):
